@@ -12,6 +12,9 @@ import time
 
 import z3
 
+import threading
+
+_Z3_LOCK = threading.Lock()
 Z3NEW = shutil.which("z3-new") or "/usr/local/bin/z3-new"
 Z3OLD = "/usr/bin/z3"
 CVC5 = "/usr/bin/cvc5"
@@ -45,15 +48,15 @@ def _has_quant_uncached(t):
     return False
 
 
-def _case_split(pc, max_cases=48):
+def _case_split(pc, max_cases=96):
     """expand top-level disjunctions among the hypotheses (they come from joins of paths) into separate cases"""
     cases = [list(pc)]
     # split on the disjunctions from last to first while the number of cases stays small
-    idxs = [k for k in range(len(pc) - 1, -1, -1) if z3.is_or(pc[k]) and 2 <= pc[k].num_args() <= 8]
+    idxs = [k for k in range(len(pc) - 1, -1, -1) if z3.is_or(pc[k]) and 2 <= pc[k].num_args() <= 64]
     for k in idxs[:3]:
         n = pc[k].num_args()
         if len(cases) * n > max_cases:
-            break
+            continue
         new = []
         for c in cases:
             for j in range(n):
@@ -121,21 +124,25 @@ def solve_text(text_full, text_qf, timeout_s, tmpdir, want_model=False):
         r, out, dt = _run(cmd, txt, timeout_s, tmpdir)
         if r == "unsat":
             return "unsat", name, time.time() - t0, None
-        if r == "sat":
+        if r == "sat" and name == "z3":
+            # only the primary solver's models are believed (its quantifier instantiation checks them); a `sat` of the
+            # secondary configurations on quantified / lambda terms is treated as undecided
             return "sat", name, time.time() - t0, out[:6000]
         notes.append(f"{name}: {r} {out.strip()[:120] if r in ('error',) else ''}")
     if os.path.exists(CVC5):
         r, out, dt = _run([CVC5, "--strings-exp", f"--tlimit={int(timeout_s) * 1000}"], "(set-logic ALL)\n" + text_full, timeout_s, tmpdir)
         if r == "unsat":
             return "unsat", "cvc5", time.time() - t0, None
-        if r == "sat":
-            return "sat", "cvc5", time.time() - t0, out[:6000]
         notes.append(f"cvc5: {r if r != 'error' else out.strip()[:100]}")
     return "unknown", "portfolio", time.time() - t0, "; ".join(notes)
 
 
 def discharge(obligations, probes=None, timeout_ms=10000, jobs=None):
-    """sets .verdict ('discharged'|'refuted'|'undecided'), .backend, .time, .raw on every obligation"""
+    """sets .verdict ('discharged'|'refuted'|'undecided'), .backend, .time, .raw on every obligation.
+
+    Every obligation is attempted as a whole by the portfolio; obligations whose hypotheses contain joined paths
+    (top-level disjunctions) are, concurrently, attempted case by case.  Whichever concludes first decides; case tasks
+    of an obligation that is already decided are skipped."""
     n = len(obligations)
     if n == 0:
         return
@@ -143,7 +150,9 @@ def discharge(obligations, probes=None, timeout_ms=10000, jobs=None):
     timeout_s = max(1, timeout_ms // 1000)
     tmpdir = tempfile.mkdtemp(prefix="pyvc_")
     try:
-        work = []
+        whole = []
+        case_tasks = []
+        ncases = {}
         for i, ob in enumerate(obligations):
             if z3.is_true(ob.goal):
                 ob.verdict, ob.backend, ob.time = "discharged", "simplifier", 0.0
@@ -151,51 +160,70 @@ def discharge(obligations, probes=None, timeout_ms=10000, jobs=None):
             full = to_smt2(ob.pc, ob.goal)
             qf_pc = [c for c in ob.pc if not _has_quant(c)]
             qf = to_smt2(qf_pc, ob.goal) if len(qf_pc) != len(ob.pc) else None
-            work.append((i, full, qf))
-        if not work:
+            whole.append((i, full, qf))
+            ob.smt2_size = len(full)
+            if not ob.expect_refuted:
+                cases = _case_split(ob.pc, max_cases=96)
+                if cases and len(cases) >= 2:
+                    ncases[i] = len(cases)
+                    for k, pc_k in enumerate(cases):
+                        case_tasks.append((i, k, pc_k))
+        if not whole:
             return
+        decided = {}
+        case_res = {i: {} for i in ncases}
+        t_start = {i: time.time() for i, _, _ in whole}
 
-        def task(item):
+        def task_whole(item):
             i, full, qf = item
             if obligations[i].expect_refuted:
-                # vacuity canary: only a quick satisfiability probe (unknown is acceptable, unsat is a checker error)
                 r, out, dt = _run([Z3NEW, "-T:5"], full, 5, tmpdir)
-                return i, ({"sat": "sat", "unsat": "unsat"}.get(r, "unknown"), "z3", dt, None)
-            return i, solve_text(full, qf, timeout_s, tmpdir, want_model=True)
+                return ("whole", i, None, ({"sat": "sat", "unsat": "unsat"}.get(r, "unknown"), "z3", dt, None))
+            res = solve_text(full, qf, timeout_s, tmpdir, want_model=True)
+            if res[0] in ("unsat", "sat"):
+                decided.setdefault(i, res[0])
+            return ("whole", i, None, res)
 
+        def task_case(item):
+            i, k, pc_k = item
+            if i in decided:
+                return ("case", i, k, ("skipped", "", 0.0, None))
+            with _Z3_LOCK:  # the z3 python API is not thread safe
+                text = to_smt2(pc_k, obligations[i].goal)
+            res = solve_text(text, None, timeout_s, tmpdir, want_model=True)
+            if res[0] == "sat":
+                decided.setdefault(i, "sat")
+            return ("case", i, k, res)
+
+        results_whole = {}
         with cf.ThreadPoolExecutor(max_workers=jobs) as pool:
-            for i, (verdict, backend, dt, raw) in pool.map(task, work):
-                ob = obligations[i]
-                ob.backend, ob.time, ob.raw = backend, dt, raw
-                ob.verdict = {"unsat": "discharged", "sat": "refuted"}.get(verdict, "undecided")
-        for i, full, qf in work:
-            obligations[i].smt2_size = len(full)
-        # second pass: case split on joined paths (top-level disjunctions among the hypotheses) for what is still open
-        open_ = [i for i, _, _ in work if obligations[i].verdict == "undecided" and not obligations[i].expect_refuted]
-        for i in open_:
+            futs = [pool.submit(task_whole, it) for it in whole] + [pool.submit(task_case, it) for it in case_tasks]
+            for f in cf.as_completed(futs):
+                kind, i, k, res = f.result()
+                if kind == "whole":
+                    results_whole[i] = res
+                else:
+                    case_res[i][k] = res
+                    if len(case_res[i]) == ncases[i] and all(v[0] == "unsat" for v in case_res[i].values()):
+                        decided.setdefault(i, "unsat")
+        for i, _, _ in whole:
             ob = obligations[i]
-            cases = _case_split(ob.pc, max_cases=48)
-            if not cases or len(cases) < 2:
-                continue
-            texts = [(k, to_smt2(pc_k, ob.goal), None) for k, pc_k in enumerate(cases)]
-            t0 = time.time()
-
-            def task2(item):
-                k, full, qf = item
-                return k, solve_text(full, None, timeout_s, tmpdir, want_model=True)
-
-            verdicts = {}
-            with cf.ThreadPoolExecutor(max_workers=jobs) as pool:
-                for k, (verdict, backend, dt, raw) in pool.map(task2, texts):
-                    verdicts[k] = (verdict, backend, raw)
-            ob.time += time.time() - t0
-            if all(v[0] == "unsat" for v in verdicts.values()):
-                ob.verdict, ob.backend, ob.raw = "discharged", f"z3/cases({len(cases)})", None
-            elif any(v[0] == "sat" for v in verdicts.values()):
-                k = next(k for k, v in verdicts.items() if v[0] == "sat")
-                ob.verdict, ob.backend, ob.raw = "refuted", f"{verdicts[k][1]}/case{k}", verdicts[k][2]
+            verdict, backend, dt, raw = results_whole[i]
+            ob.time = time.time() - t_start[i] if False else dt
+            cr = case_res.get(i, {})
+            if verdict == "unsat":
+                ob.verdict, ob.backend, ob.raw = "discharged", backend, None
+            elif cr and len(cr) == ncases[i] and all(v[0] == "unsat" for v in cr.values()):
+                ob.verdict, ob.backend, ob.raw = "discharged", f"z3/cases({ncases[i]})", None
+                ob.time += sum(v[2] for v in cr.values())
+            elif verdict == "sat":
+                ob.verdict, ob.backend, ob.raw = "refuted", backend, raw
+            elif any(v[0] == "sat" for v in cr.values()):
+                k = next(k for k, v in cr.items() if v[0] == "sat")
+                ob.verdict, ob.backend, ob.raw = "refuted", f"{cr[k][1]}/case{k}", cr[k][3]
             else:
-                ob.raw = (ob.raw or "") + f"; case split into {len(cases)}: " + ",".join(v[0] for v in verdicts.values())
+                ob.verdict, ob.backend = "undecided", backend
+                ob.raw = (raw or "") + (f"; cases({ncases[i]}): " + ",".join(cr[k][0] for k in sorted(cr)) if cr else "")
     finally:
         shutil.rmtree(tmpdir, ignore_errors=True)
 
